@@ -1,5 +1,6 @@
 SPECIFICATION Spec
-CONSTANTS Family = "pat"  MaxTrials = 1  MaxStep = 3  MaxVal = 2  MaxReports = 4  WithNaN = TRUE  WithFail = FALSE
+CONSTANTS Family = "pat"  MaxTrials = 1  MaxStep = 4  MaxVal = 2  MaxReports = 5  WithNaN = TRUE
+          FinishStates = {"COMPLETE"}
 INVARIANT AlgoWithinEnvelope
 INVARIANT EnvelopeSatisfiable
 INVARIANT CheckStepIsCode
